@@ -202,7 +202,7 @@ impl CoverageFormat1<'_> {
     pub fn intersects(&self, glyphs: &IntSet<GlyphId>) -> bool {
         let glyph_count = self.glyph_count() as u32;
         let num_bits = 32 - glyph_count.leading_zeros();
-        if glyph_count > (glyphs.len() as u32) * num_bits / 2 {
+        if glyph_count as u64 > glyphs.len().saturating_mul(num_bits as u64) / 2 {
             glyphs.iter().any(|g| self.get(g).is_some())
         } else {
             self.glyph_array()
@@ -244,7 +244,7 @@ impl CoverageFormat2<'_> {
     pub fn intersects(&self, glyphs: &IntSet<GlyphId>) -> bool {
         let range_count = self.range_count() as u32;
         let num_bits = 32 - range_count.leading_zeros();
-        if range_count > (glyphs.len() as u32) * num_bits / 2 {
+        if range_count as u64 > glyphs.len().saturating_mul(num_bits as u64) / 2 {
             glyphs.iter().any(|g| self.get(g).is_some())
         } else {
             self.range_records()
